@@ -391,16 +391,64 @@ package bitmap
 //@     invariant a >> 6 < wordI && wordI <= l && l == int32(len(words)) && 0 <= a && int(a) < 64 * len(words)
 //@     invariant forall k int :: int(a >> 6) < k && k < int(wordI) ==> words[k] == 0
 
-// ---- C12: OfMany (BOUNDED: trusted contract, checked on concrete executions of the real function) ----
-// the positions of sub-bitmap i are shifted by the running sum of the preceding sizes
+// ---- C12: OfMany ----
+// the positions of sub-bitmap i are shifted by the running sum of the preceding sizes:
+// segment i of the result, [sumSz(i), sumSz(i+1)), holds exactly the positions of subs[i]
 
-//@ func OfMany returns (r)
-//@   trusted not brought under proof (nested range loops over [][]int32 with running sums feeding Of's ascending precondition): bounded check only
-//@   requires len(subs) == len(sizes) && len(subs) < 16
-//@   requires forall i int :: 0 <= i && i < len(sizes) ==> 0 <= sizes[i] && sizes[i] < 1<<16
-//@   requires forall i int, k int :: 0 <= i && i < len(subs) && 0 <= k && k < len(subs[i]) ==> 0 <= subs[i][k] && subs[i][k] < sizes[i] && (k + 1 < len(subs[i]) ==> subs[i][k] < subs[i][k+1])
-//@   ensures len(r) == int((sumSz(sizes, len(sizes)) + 63) >> 6)
-//@   ensures forall q int32 :: 0 <= q && q < sumSz(sizes, len(sizes)) ==> (bitAt(r, q) == 1 <==> (exists i int, k int :: 0 <= i && i < len(subs) && 0 <= k && k < len(subs[i]) && sumSz(sizes, i) + subs[i][k] == q))
+//@ func OfMany returns (bm)
+//@   requires len(subs) == len(sizes) && len(subs) < 1<<30
+//@   requires lensOK(subs) && szOK(sizes)
+//@   requires subsIn(subs, sizes) && subsAsc(subs)
+//@   ensures len(bm) == (int(sumSz(sizes, len(sizes))) + 63) >> 6
+//@   ensures forall s int, q int32 :: 0 <= s && s < len(subs) && sumSz(sizes, s) <= q && q < sumSz(sizes, s+1) ==> (bitAt(bm, q) == 1 <==> memb(subs[s], len(subs[s]), q - sumSz(sizes, s)))
+//@   ensures fresh(bm)
+//@   assigns nothing
+//@   regionctx
 //@   witness-gen sizes = func() []int32 { n := r.Intn(5); o := make([]int32, n); for i := range o { o[i] = int32(r.Intn(40)) }; return o }()
 //@   witness-gen subs = func() [][]int32 { o := make([][]int32, len(sizes)); for i := range o { for p := int32(0); p < sizes[i]; p++ { if r.Intn(6) == 0 && len(o[i]) < 6 { o[i] = append(o[i], p) } } }; return o }()
-//@   assigns nothing
+//@   loop 1
+//@     invariant -1 <= rangeindex && rangeindex < len(subs) && totalBits == sumLen(subs, rangeindex+1)
+//@     use lensOK_at(subs, rangeindex+1)
+//@     use lensOK_at(subs, rangeindex+2)
+//@   loop 2
+//@     invariant -1 <= rangeindex && rangeindex < len(subs) && len(r) == sumLen(subs, len(subs)) && fresh(r)
+//@     invariant ith == sumLen(subs, rangeindex+1) && base == sumSz(sizes, rangeindex+1)
+//@     invariant forall j int :: 0 <= j && j < ith ==> 0 <= r[j] && r[j] < base
+//@     invariant forall j int, k int :: 0 <= j && j <= k && k < ith ==> r[j] <= r[k]
+//@     invariant forall j int :: 0 <= j && j < ith ==> r[j] == sumSz(sizes, segOf(subs, rangeindex+1, j)) + subs[segOf(subs, rangeindex+1, j)][j - sumLen(subs, segOf(subs, rangeindex+1, j))]
+//@     use lensOK_at(subs, rangeindex+1)
+//@     use lensOK_at(subs, rangeindex+2)
+//@     use szOK_at(sizes, rangeindex+1)
+//@     use szOK_at(sizes, rangeindex+2)
+//@   loop 3
+//@     invariant -1 <= rangeindex && rangeindex < len(e) && sameslice(e, subs[i]) && 0 <= i && i < len(subs) && len(r) == sumLen(subs, len(subs)) && fresh(r)
+//@     invariant ith == sumLen(subs, i) + (rangeindex+1) && base == sumSz(sizes, i)
+//@     invariant forall j int :: 0 <= j && j < ith ==> 0 <= r[j] && r[j] < base + sizes[i] && (j < sumLen(subs, i) ==> r[j] < base) && (j >= sumLen(subs, i) ==> base <= r[j])
+//@     invariant forall j int, k int :: 0 <= j && j <= k && k < ith ==> r[j] <= r[k]
+//@     invariant forall j int :: 0 <= j && j < ith ==> r[j] == sumSz(sizes, segOf(subs, i+1, j)) + subs[segOf(subs, i+1, j)][j - sumLen(subs, segOf(subs, i+1, j))]
+//@     use lensOK_at(subs, i)
+//@     use lensOK_at(subs, i+1)
+//@     use szOK_at(sizes, i)
+//@     use szOK_at(sizes, i+1)
+//@     use sumLen_mono(subs, i+1, len(subs))
+//@     use subsIn_at(subs, sizes, i, rangeindex+1)
+//@     use forall jSK int :: subsAsc_at(subs, i, jSK - sumLen(subs, i), rangeindex+1)
+//@     use forall jSK int :: segOf_range(subs, i+1, jSK)
+//@   useret forall sSK int :: sumSz_mono(sizes, sSK+1, len(sizes))
+//@   useret forall sSK int :: sumLen_mono(subs, sSK+1, len(subs))
+//@   useret forall sSK int :: lensOK_at(subs, sSK)
+//@   useret forall sSK int :: lensOK_at(subs, sSK+1)
+//@   useret forall sSK int :: szOK_at(sizes, sSK)
+//@   useret forall sSK int :: szOK_at(sizes, sSK+1)
+//@   useret szOK_at(sizes, len(sizes))
+//@   useret forall sSK int, qSK int32 :: memb_wit(subs[sSK], len(subs[sSK]), qSK - sumSz(sizes, sSK))
+//@   useret forall sSK int, qSK int32 :: segOf_at(subs, len(subs), sSK, mwit(subs[sSK], len(subs[sSK]), qSK - sumSz(sizes, sSK)))
+//@   useret forall sSK int, qSK int32 :: memb_at(r, len(r), sumLen(subs, sSK) + mwit(subs[sSK], len(subs[sSK]), qSK - sumSz(sizes, sSK)))
+//@   useret forall qSK int32 :: memb_wit(r, len(r), qSK)
+//@   useret forall qSK int32 :: segOf_range(subs, len(subs), mwit(r, len(r), qSK))
+//@   useret forall qSK int32 :: subsIn_at(subs, sizes, segOf(subs, len(subs), mwit(r, len(r), qSK)), mwit(r, len(r), qSK) - sumLen(subs, segOf(subs, len(subs), mwit(r, len(r), qSK))))
+//@   useret forall qSK int32 :: szOK_at(sizes, segOf(subs, len(subs), mwit(r, len(r), qSK)))
+//@   useret forall qSK int32 :: szOK_at(sizes, segOf(subs, len(subs), mwit(r, len(r), qSK)) + 1)
+//@   useret forall sSK int, qSK int32 :: sumSz_mono(sizes, segOf(subs, len(subs), mwit(r, len(r), qSK)) + 1, sSK)
+//@   useret forall sSK int, qSK int32 :: sumSz_mono(sizes, sSK + 1, segOf(subs, len(subs), mwit(r, len(r), qSK)))
+//@   useret forall sSK int, qSK int32 :: memb_at(subs[sSK], len(subs[sSK]), mwit(r, len(r), qSK) - sumLen(subs, sSK))
